@@ -69,6 +69,11 @@ InPlaneIsIdentityPlusGrad(r) ==
 \* plane strain: out-of-plane row / column of F is (0, 0, 1)
 PlaneStrainPadding(r) == \A n \in 1..Len(r.F) : /\ FAt(r, n, 3, 3) = S
                                                 /\ \A k \in 1..2 : FAt(r, n, 3, k) = 0 /\ FAt(r, n, k, 3) = 0
+\* second derivatives of a 2-d field kind padded to d3 x d3 x d3: the in-plane block is the plain 2-d hessian, everything else zero
+HessPadding(r) == /\ Len(r.H3) = Len(r.H2)
+                  /\ \A n \in 1..Len(r.H3) : \A i \in 1..r.d3 : \A j \in 1..r.d3 : \A k \in 1..r.d3 :
+                        r.H3[n][((i - 1) * r.d3 + (j - 1)) * r.d3 + k]
+                          = IF i <= 2 /\ j <= 2 /\ k <= 2 THEN r.H2[n][((i - 1) * 2 + (j - 1)) * 2 + k] ELSE 0
 \* axisymmetric: hoop stretch 1 + u_r / R with R the radial coordinate (second component) of the point
 AxiHoop(r) == \A n \in 1..Len(r.F) : /\ Abs(M(FAt(r, n, 3, 3) - S, r.xq[n][2]) - r.u[n][2]) <= 8
                                      /\ \A k \in 1..2 : FAt(r, n, 3, k) = 0 /\ FAt(r, n, k, 3) = 0
@@ -89,6 +94,7 @@ Clauses(r) == CASE r.kind = "volume" -> {"Positive", "VolumeSum", "NoWarningWhen
                 [] r.kind = "reproduce" -> {"ReproduceValue"} \cup (IF r.hasg THEN {"ReproduceGradient"} ELSE {}) \cup (IF r.hash THEN {"ReproduceHessian"} ELSE {})
                 [] r.kind = "planestrain" -> {"InPlaneIsIdentityPlusGrad", "PlaneStrainPadding"}
                 [] r.kind = "axisymmetric" -> {"InPlaneIsIdentityPlusGrad", "AxiHoop"}
+                [] r.kind = "hesspad" -> {"HessPadding"}
                 [] r.kind = "dual" -> {"DualConstantPerCell"}
                 [] r.kind = "gram" -> {"GramExact"}
                 [] r.kind = "uniform" -> {"UniformEqualsGeneral"}
@@ -99,7 +105,7 @@ HoldsR(c, r) == CASE c = "Positive" -> Positive(r) [] c = "VolumeSum" -> VolumeS
                   [] c = "ReproduceValue" -> ReproduceValue(r) [] c = "ReproduceGradient" -> ReproduceGradient(r)
                   [] c = "ReproduceHessian" -> ReproduceHessian(r)
                   [] c = "InPlaneIsIdentityPlusGrad" -> InPlaneIsIdentityPlusGrad(r) [] c = "PlaneStrainPadding" -> PlaneStrainPadding(r)
-                  [] c = "AxiHoop" -> AxiHoop(r) [] c = "DualConstantPerCell" -> DualConstantPerCell(r)
+                  [] c = "AxiHoop" -> AxiHoop(r) [] c = "DualConstantPerCell" -> DualConstantPerCell(r) [] c = "HessPadding" -> HessPadding(r)
                   [] c = "GramExact" -> GramExact(r) [] c = "UniformEqualsGeneral" -> UniformEqualsGeneral(r) [] c = "AstypeCopy" -> AstypeCopy(r)
 ApplicableR(r) == Clauses(r)
 FailingR(r) == {c \in Clauses(r) : ~HoldsR(c, r)}
